@@ -51,6 +51,8 @@ EXPECT = [
     ("OrderedTaskGroup orders the scheduled members", "C06,C03"),
     ("CumulativeWorker listed in a SelectWorkers keeps its capacity", "C02,C11"),
     ("TaskPrecedence between a task group and an optional task", "C18"),
+    ("already required by a task is refused as an alternative", "C02"),
+    ("export_to_smt2 in debug mode asserts the tracking literals", "C16"),
 ]
 
 
